@@ -561,3 +561,23 @@ def _is_inside(n, container):
             return True
         x = parent(x)
     return False
+
+
+def lazy_reuse_rule(report, p, rid, roots, what):
+    """shared shape of R19.4: in everything reachable from `roots`, no single-use iterator bound outside a loop is consumed inside it"""
+    r = report.rule(
+        rid,
+        f"no single-use iterator (filter / map / generator expression / generator call) bound outside a loop is consumed inside it in anything {what} reaches: "
+        "from the loop's second round on it is exhausted, so everything after the first file / folder / generation silently sees an empty collection",
+        3,
+    )
+    reach = p.reachable(list(roots))
+    for q in sorted(reach):
+        f = p.funcs.get(q)
+        if f is None or not f.module.name.startswith("ascmhl"):
+            continue
+        r.instance(f, f.node, f"{f.qual}: loops scanned")
+        for asg, use, loop in reused_lazy_iterators(p, f):
+            r.check(False, f, use, f"`{norm(asg.targets[0])}` is bound once to a single-use iterator ({norm(asg.value)[:60]}, line {asg.lineno}) and consumed inside the loop at line {loop.lineno}: only the first round sees any element", construct=f"single-use iterator {norm(asg.targets[0])} consumed inside a loop")
+    r.check(True, None, None, "")
+    return r
